@@ -307,8 +307,11 @@ func runLogSeq(s logSeq, base string, out *json.Encoder) {
 			case "commitN":
 				e = r.l.CommitN(op.I)
 			case "removeLTE":
+				// views are documented to be invalid after RemoveLTE / RemoveGTE (their segments may be unmapped)
+				r.views, r.vbounds = nil, nil
 				e = r.l.RemoveLTE(op.I)
 			case "removeGTE":
+				r.views, r.vbounds = nil, nil
 				e = r.l.RemoveGTE(op.I)
 			case "reset":
 				e = r.l.Reset(op.I)
